@@ -20,6 +20,7 @@ let req_variant (v : string) : reqclass * int * bool =
   match v with
   | "ok" -> (RqOk, 0, true)
   | "sp" -> (RqOk, 1, true)
+  | "spf" -> (RqOk, 15, true)
   | "extra" -> (RqOk, 2, true)
   | "duprand" -> (RqOk, 3, true)
   | "hasp" -> (RqOkHasParams, 4, true)
@@ -151,7 +152,7 @@ let field (kv : string list) (k : string) : string =
 
 let mitm_of = function
   | "none" -> MNone | "req-altered" -> MReqAltered | "req-broken" -> MReqBroken
-  | "resp-altered" -> MRespAltered | "p1-invalid" -> MP1Invalid | "p2-altered" -> MP2Altered
+  | "resp-altered" -> MRespAltered | "p1-invalid" -> MP1Invalid | "p1-swapped" -> MP1Swapped | "p2-altered" -> MP2Altered
   | "p3-altered" -> MP3Altered | "p3-broken" -> MP3Broken
   | s -> failwith ("bad mitm class " ^ s)
 
